@@ -358,3 +358,51 @@ def record_jobs(src):
     c.ensures("pos__ == RECEND(P0__) + 3 * (8 + ib)")
     out.append(dict(contract=c, source=src, builtins=b, lang="python", tag="op2.skipop2record[ghost file]"))
     return out
+
+
+def nt_contract():
+    """OP2.rdop2nt (straight-line): consumes exactly the name/trailer header of a data block
+         key(2) [len][name][len] key(-1) key(7) [len][trailer: key ints][len] key(-2) key(1) key(0) key(2) [len][name][len] key(-3) key(1) key(rectype)
+    returns the trailer words read at their offset and the record type; a first key of 0 (end of file) returns Nones behind that triplet"""
+    c, b, env = record_contract("skip")
+    c.qualname = "OP2.rdop2nt"
+    c.loops.clear(); c.hooks[:] = []; c.ensures_[:] = []; c.requires_[:] = []
+    ib, T = env["ib"], env["T"]
+    so = env["selfobj"]
+    def validname(eng, e, st, spec):
+        eng.ev(e.args[0], st)            # the read of the name bytes happens in the argument
+        return PyObj("name")
+    so.methods["_validname"] = validname
+    Ts = "(8 + ib)"
+    n1 = "P0__ + %s" % Ts                                   # first name record
+    k7 = "%s + 4 + F4(%s) + 4 + %s" % (n1, n1, Ts)          # key triplet holding the trailer length
+    tr = "%s + %s" % (k7, Ts)                               # trailer record
+    n2 = "%s + 4 + ib * FI(%s + 4) + 4 + 4 * %s" % (tr, k7, Ts)     # second name record
+    end = "%s + 4 + F4(%s) + 4 + 3 * %s" % (n2, n2, Ts)
+    # well-formed header: non-negative record lengths and trailer word count
+    c.requires("ib == 4 or ib == 8", "F4(%s) >= 0" % n1, "FI(%s + 4) >= 0" % k7, "F4(%s) >= 0" % n2)
+    c.ensures("FI(P0__ + 4) == 0 and pos__ == P0__ + %s or FI(P0__ + 4) != 0 and pos__ == %s" % (Ts, end))
+    c.after_stmt("rec_type = self._getkey()", ["assert rec_type == FI(%s - %s + 4)" % (end, Ts)])
+    # the trailer words are read where the grammar puts them
+    c.after_stmt("trailer = struct.unpack(frm, self._fileh.read(bytes))", ["assert TR_P__ == %s + 4" % tr, "assert TR_N__ == FI(%s + 4)" % k7])
+    c.ghost("TR_P__", "int", "0")
+    c.ghost("TR_N__", "int", "0")
+    c.extra_mods = ("pos__",)
+
+    def struct_unpack(eng, e, st, spec):
+        f_ = eng.ev(e.args[0], st)
+        tok = eng.ev(e.args[1], st)
+        if not (isinstance(f_, tuple) and f_[0] == "fmt%") or not isinstance(tok, Tok):
+            raise Unsupported("struct.unpack arguments")
+        _, kind, size, cnt = f_
+        eng.oblige(st, tok.n == size * cnt, "read-size-matches-format@L%s" % e.lineno, "assert", e)
+        st.env["TR_P__"], st.env["TR_N__"] = tok.p, cnt
+        return PyObj("trailer")
+    b = dict(b)
+    b["struct.unpack"] = struct_unpack
+    return c, b
+
+
+def nt_jobs(src):
+    c, b = nt_contract()
+    return [dict(contract=c, source=src, builtins=b, lang="python", tag="op2.rdop2nt[ghost file]")]
